@@ -18,6 +18,7 @@ static const int BASE2[] = { 4, 13, 22, 31, 40, 49, 54, 55, 57 };
 #define N_SYNC0 2
 #define N_BASE2 ((int)(sizeof BASE2 / sizeof BASE2[0]))
 static int TB;
+static uint32_t MSPT = 1;     /* --opt slow=1: 100 Hz timer (10 ms per tick); inhibit and event times are then written in units of 10 ms */
 
 enum { E_TRIG0, E_TRIGOBJ, E_WR_CHG, E_WR_SAME, E_WR_P16, E_SYNC, E_TICK, E_START, E_PREOP, E_STOP, E_RESET, E_INVAL, E_REVAL, E_TYPE254, E_TYPE255, E_INH0, E_INH2, E_INH3, E_EVT0, E_EVT3, E_EVT4, E_REMAP1, E_REMAP3, E_WR_A16, E_TYPE1, E_N };
 static const char *const EN[] = { "COTPdoTrigPdo(0)", "COTPdoTrigObj(async object)", "write async object (changed)", "write async object (same value)", "write second mapped object", "SYNC", "tick", "NMT start", "NMT pre-op", "NMT stop",
@@ -57,6 +58,8 @@ static int build(int cfg)
         NC.tpdo[TB].type = 254; NC.tpdo[TB].inhibit = (uint16_t)(TMR2[cfg - 54].inh0 * 10); NC.tpdo[TB].event = TMR2[cfg - 54].evt0;
         NC.tpdo[TB + 1].inhibit = (uint16_t)(TMR2[cfg - 54].inh1 * 10); NC.tpdo[TB + 1].event = TMR2[cfg - 54].evt1;
     }
+    MSPT = mc_opt("slow", 0) ? 10 : 1; NC.freq = 1000 / MSPT;
+    for (int i = 0; i < 2; i++) { NC.tpdo[TB + i].inhibit = (uint16_t)(NC.tpdo[TB + i].inhibit * MSPT); NC.tpdo[TB + i].event = (uint16_t)(NC.tpdo[TB + i].event * MSPT); }
     nc_build();
     (void)CONodeGetErr(&Node);
     memset(&M, 0, sizeof M);
@@ -154,9 +157,9 @@ static int step(int e)
         else if (e == E_REVAL) { int was = t->valid; r = nc_sdo_write((uint16_t)(0x1800 + TB), 1, 0x40000181u, 4); if (r == 0 && !was) { t->valid = 1; activate(0); } }
         else if (e == E_TYPE254 || e == E_TYPE255) { r = nc_sdo_write((uint16_t)(0x1800 + TB), 2, e == E_TYPE254 ? 254 : 255, 1); if (r == 0) t->type = (uint8_t)(e == E_TYPE254 ? 254 : 255); }
         else if (e == E_TYPE1) { r = nc_sdo_write((uint16_t)(0x1800 + TB), 2, 1, 1); if (r == 0) t->type = 1; }
-        else if (e >= E_INH0 && e <= E_INH3) { uint16_t v = (uint16_t)(e == E_INH0 ? 0 : e == E_INH2 ? 2 : 3); r = nc_sdo_write((uint16_t)(0x1800 + TB), 3, v * 10u, 2); if (r == 0) t->inh_cfg = v; }
+        else if (e >= E_INH0 && e <= E_INH3) { uint16_t v = (uint16_t)(e == E_INH0 ? 0 : e == E_INH2 ? 2 : 3); r = nc_sdo_write((uint16_t)(0x1800 + TB), 3, v * 10u * MSPT, 2); if (r == 0) t->inh_cfg = v; }
         else { uint16_t v = (uint16_t)(e == E_EVT0 ? 0 : e == E_EVT3 ? 3 : 4);
-            r = nc_sdo_write((uint16_t)(0x1800 + TB), 5, v, 2);
+            r = nc_sdo_write((uint16_t)(0x1800 + TB), 5, v * MSPT, 2);
             if (r == 0) { t->evt_cfg = v;
                 if (t->active) {      /* the event time is re-timed from the write; a running inhibit time is ended by it and a waiting transmission is sent */
                     t->evt = v; t->ev_rem = v; t->inh_rem = 0;
